@@ -98,7 +98,7 @@ def _run(chk):
         "RangeSpecifier/UnionSpecifier/EmptySpecifier/AnySpecifier operators over the complete finite quotient of "
         f"operand pairs with <= K={K} distinct bound values (order-only lemma: versions are opaque tokens supporting "
         "only comparisons, enforced by the interpreter). Oracle: interval sets on the doubled line of 2K+1 points.")
-    chk.rule("R01.1", "order-only lemma enforced on the slice (anchors present)", min_instances=17)
+    chk.rule("R01.1", "order-only lemma enforced on the slice (anchors present)", min_instances=9)
     chk.rule("R01.2", "denotation of a&b, a|b, ~a equals and/or/not of operand denotations")
     chk.rule("R01.3", "operator dispatch is total over {Empty, Any, Range, Union}^2")
     chk.rule("R01.4", "result bounds are operand bounds (closure => induction over nested expressions)")
